@@ -227,12 +227,15 @@ def run(tier):
     ck.rule("E1.operator-config", "trial_config / test_config / trafo_config request every datum that eval reads from phi / psi (and set_point from tau): a datum read without its tag is uninitialised (NaN-initialised) evaluation data, a datum read from the wrong side is the trial/test mix-up", 81)
     ck.rule("E11.operator-symmetry", "operators of symmetric forms: eval(phi,psi) = eval(psi,phi) (blocked: transposed block; per-block operators: with (ir,ic) swapped), so that the assembled matrix is symmetric for test = trial space", 12)
     ck.rule("E11.operator-kernel", "operators whose form annihilates constants (all derivatives of the trial function) vanish identically when the trial function data is that of a constant (grad = ref_grad = hess = 0), i.e. they do not depend on phi.value", 45)
+    ck.rule("E11.functional-integrand", "linear functionals of common_functionals.hpp: the normal form of Evaluator::set_point(tau) followed by eval(psi) equals the integrand stated in the class documentation for the scalar AND the vector-valued (blocked) instantiation: ForceFunctional f(x) psi, LaplaceFunctional -Laplace(f)(x) psi, component-wise for vector fields with the Hessian layout hess[component][d1][d2] of Analytic::EvalTraits (component index first, derivative indices after); every component of a vector value is assigned exactly on its extent. A swapped index role integrates -grad(div f) instead of -Laplace(f) for every field with mixed dependencies", 8)
+    ck.rule("E1.functional-config", "test_config / trafo_config of a linear functional request every datum eval reads from psi and set_point reads from tau", 16)
     ck.rule("E1.accumulate-roles", "every assembly route accumulates eval(trial basis j, test basis i) (functionals: eval(test basis i)) into local entry (i,j) resp. (i): the phi argument is the data filled by the trial-space evaluator indexed by the column loop variable, psi the test-space data indexed by the row loop variable, the loops run to the respective evaluator's get_num_local_dofs(); swapped roles transpose every non-symmetric operator and break rectangular test/trial pairs", 13)
     ck.rule("E7.weight-once", "one accumulation step is exactly prev + eval * jac_det * cubature_weight(k) [* coefficient(j) for the matrix-free apply routes]: jac_det of the trafo data computed at cubature point k, the weight of the same point k of the same rule, each factor exactly once on every path into the accumulation", 13)
     ck.rule("E1.scatter-roles", "the local matrix/vector that was accumulated is scattered with (row mapping = test dof mapping, column mapping = trial dof mapping) prepared for the same cell; apply routes gather the coefficients with the trial mapping and scatter with the test mapping", 13)
     ck.rule("E2.scatter-gather", "ScatterAxpy/GatherAxpy of SparseMatrixCSR/BCSR: the row comes from the row mapping's get_index(i), the column table is filled from col_idx over exactly [row_ptr[row], row_ptr[row+1]) of that row, the entry addressed is col_ptr[col_map.get_index(j)] and receives alpha * loc(i,j) (gather: loc(i,j) += alpha * data[...]); vectors: index from the mapping's get_index(i)", 7)
     ck.rule("E1.symbolic-graph", "SymbolicAssembler::assemble_graph_*: the pattern is the composition transpose(test dof graph) o (trial dof graph) (extended variants: with the facet/node adjacency in between), both rendered from the respective spaces, so that every (test dof, trial dof) pair sharing a cell receives an entry", 7)
 
+    ck.rule("E7.permutation-applied", "SymbolicAssembler functions that fetch a mesh permutation of one of their spaces (get_perm() / get_inv_perm() of the space's mesh): decision table over the emptiness tests of these permutations - for every combination (empty / not empty) every path to a return yields a graph that depends on every fetched permutation that is not empty in that combination (dependence over-approximated through calls, so only the ABSENCE is a verdict), and no permutation that is empty in that combination is handed to a call as an operand (an empty Permutation has no position array); otherwise, for exactly that combination of permuted / unpermuted meshes, the sparsity pattern is composed in the wrong cell numbering and misses couplings that the numeric assembly fills", 4)
     ck.rule("E7.voxel-point-dependence", "voxel assembly kernels (poisson / defo / burgers matrix and defect, host-generic path): in one step of the cubature loop every datum entering the accumulation is computed at the CURRENT cubature point: the determinant factor is det of the Jacobian from calc_jac_mat(cub_pt[k]), the transformed gradients come from eval_ref_gradients(cub_pt[k]) and trans_gradients with the inverse of that same Jacobian, values from eval_ref_values(cub_pt[k]); a Jacobian evaluated outside the loop (e.g. at the cell centre) is exact on parallelogram cells only, the Standard trafo is multilinear", 6)
     ck.rule("E7.voxel-weight-once", "voxel assembly kernels: every term accumulated into the local matrix/vector in the cubature loop carries exactly one factor det(J(cub_pt[k])) and exactly one factor cub_wg[k] of the same loop index k", 6)
 
@@ -252,9 +255,11 @@ def run(tier):
         ck.ob("E11.operator-integrand", "E0/%s/%s" % (rel(e["file"]), re.sub(r"\d+", "N", e["msg"])[:80]), False, "front-end error %s:%d %s" % (rel(e["file"]), e["line"], e["msg"]), e["file"], e["line"])
 
     check_operators(ck, facts, tier)
+    check_functionals(ck, facts, tier)
     check_routes(ck, facts, tier)
     check_scatter(ck, facts, tier)
     check_symbolic(ck, facts, tier)
+    check_permutation_applied(ck, facts, tier)
     check_voxel(ck, tier)
     facts_b = featlib.extract("tu/c16_burgers.cpp", files=BURGERS_FILES)
     ck.tu(facts_b)
@@ -294,6 +299,7 @@ def run(tier):
             ck.ob("E11.operator-integrand", "E0/%s/%s" % (rel(e["file"]), re.sub(r"\d+", "N", e["msg"])[:80]), False, "[float] front-end error %s:%d %s" % (rel(e["file"]), e["line"], e["msg"]), e["file"], e["line"])
         pk = _Prefixed(ck, "[instantiated for float] ")
         check_operators(pk, facts_f, tier)
+        check_functionals(pk, facts_f, tier)
         check_routes(pk, facts_f, tier)
         check_scatter(pk, facts_f, tier)
 
@@ -480,6 +486,167 @@ def check_operators(ck, facts, tier):
             have |= {"hess_ten", "jac_inv"}
         miss = sorted(x for x in rd_tau if x in ttags and x not in have)
         ck.ob("E1.operator-config", "%s/trafo_config" % inst0, not miss, "set_point reads tau.%s which trafo_config (+jac_det, closure) = %s does not provide" % (miss, sorted(have)) if miss else "trafo data read: %s" % sorted(rd_tau), f.file, f.line)
+
+
+# -------------------------------------------------------------------------------------------------
+# linear functionals
+# -------------------------------------------------------------------------------------------------
+
+FUNCS_FILE = "kernel/assembly/common_functionals.hpp"
+ANALYTIC_FILE = "kernel/analytic/function.hpp"
+
+
+def functional_table():
+    """functional -> anchors in the class documentation, documented integrand, expected normal form.
+    F = function value (FVAL), H = function Hessian (FHESS) in the image point, psi = P0 (the test basis function).
+    scalar f: F, H[a][b];  vector field: F[c], H[c][a][b]  (layout: anchors in kernel/analytic/function.hpp)"""
+    def F(*i):
+        return Poly.sym(leaf_name("FVAL", *i))
+
+    def H(*i):
+        return Poly.sym(leaf_name("FHESS", *i))
+    psi = Poly.sym(leaf_name("P0", "value"))
+
+    def force(dom, img):
+        return F() * psi if img is None else {(c,): F(c) * psi for c in range(img)}
+
+    def laplace(dom, img):
+        if img is None:
+            r = Poly.const(0)
+            for a in range(dom):
+                r = r - H(a, a)
+            return r * psi
+        out = {}
+        for c in range(img):
+            r = Poly.const(0)
+            for a in range(dom):
+                r = r - H(c, a, a)
+            out[(c,)] = r * psi
+        return out
+    return {
+        "ForceFunctional": dict(anchor=[r"\f[ \ell(\varphi) := \int_\Omega f\cdot\varphi \f]"], doc="f(x) * psi (component-wise for a vector field)", expect=force),
+        "LaplaceFunctional": dict(anchor=[r"\f[ \ell(\varphi) := \int_\Omega -\Delta f\cdot\varphi \f]"], doc="-Laplace(f)(x) * psi = -sum_a d_a d_a f_c * psi, Hessian layout hess[c][a][b]", expect=laplace),
+    }
+
+
+def check_functionals(ck, facts, tier):
+    try:
+        src = open(F(FUNCS_FILE)).read()
+        asrc = norm_ws(open(F(ANALYTIC_FILE)).read())
+    except OSError as e:
+        ck.incomplete("E11.functional-integrand", "cannot read %s: %s" % (FUNCS_FILE, e))
+        return
+    # the Hessian layout the expected forms are written in (component first, derivative indices after)
+    for a in ("typedef Tiny::Tensor3<DataType_, image_dim_, domain_dim_, domain_dim_> HessianType;", "typedef Tiny::Matrix<DataType_, domain_dim_, domain_dim_> HessianType;"):
+        if norm_ws(a) not in asrc:
+            ck.incomplete("E11.functional-integrand", "oracle anchor changed: %s no longer declares %r (re-transcribe the Hessian layout)" % (ANALYTIC_FILE, a))
+            return
+    table = functional_table()
+    stags = tag_values(facts, "SpaceTags")
+    ttags = tag_values(facts, "TrafoTags")
+    cfgs = {}
+    for f in facts.functions:
+        m = re.match(r"^inst_functional<(FEAT::Assembly::Common::\w+<.*>), (\d)>$", f.full)
+        if m:
+            cfgs[(m.group(1), int(m.group(2)))] = config_values(f)
+    helper = SymEx([facts])
+    anchors_ok = {}
+    for name, row in table.items():
+        txt = class_text(src, name)
+        if txt is None:
+            ck.incomplete("E11.functional-integrand", "class %s not found in %s" % (name, FUNCS_FILE))
+            anchors_ok[name] = False
+            continue
+        missing = [a for a in row["anchor"] if norm_ws(a) not in norm_ws(txt)]
+        if missing:
+            ck.incomplete("E11.functional-integrand", "%s: oracle anchor text changed (documentation no longer contains %r); re-transcribe the integrand table" % (name, missing[0]))
+        anchors_ok[name] = not missing
+    classes = {}
+    for f in facts.functions:
+        m = re.match(r"^(FEAT::Assembly::Common::(\w+)<(.*)>)::Evaluator<FEAT::Assembly::AsmTraits1<.*FEAT::Shape::Hypercube<(\d)>", f.cls)
+        if m and f.tk != "pattern" and f.name in ("eval", "set_point"):
+            classes.setdefault(f.cls, {"name": m.group(2), "fun": m.group(3), "func_cls": m.group(1), "dim": int(m.group(4)), "m": {}})["m"].setdefault(f.name, f)
+    done = set()
+    for cls, info in sorted(classes.items()):
+        name, dim = info["name"], info["dim"]
+        fe, fs = info["m"].get("eval"), info["m"].get("set_point")
+        if name not in table:
+            ck.note("functional %s has no row in the documented integrand table (not covered)" % name)
+            continue
+        if not anchors_ok.get(name) or fe is None or fs is None or len(fe.params) != 1:
+            if anchors_ok.get(name):
+                ck.incomplete("E11.functional-integrand", "%s: eval(psi) / set_point(tau) not instantiated with the expected signature" % cls[:90])
+            continue
+        cfg = cfgs.get((info["func_cls"], dim))
+        if not cfg or "comps" not in cfg:
+            ck.incomplete("E11.functional-integrand", "%s: number of value components not found in the driver facts (inst_functional)" % cls[:90])
+            continue
+        img = cfg["comps"][0] if cfg["comps"][0] > 1 else None
+        inst = "%s/%s/dim%d" % (name, "vector%d" % img if img else "scalar", dim)
+        if inst in done:
+            continue
+        done.add(inst)
+
+        def model(sx, n, callee, this_loc, args, fn):
+            if this_loc is not None and loc_name(this_loc).endswith("_func_eval") or (this_loc is not None and "Analytic::" in callee):
+                nm = callee.rsplit("::", 1)[-1]
+                if nm in ("value", "gradient", "hessian") and len(args) == 1:
+                    pts.append((nm, loc_name(args[0]) if isinstance(args[0], Loc) else str(args[0])))
+                    return Loc({"value": "FVAL", "gradient": "FGRAD", "hessian": "FHESS"}[nm])
+            return None
+        pts = []
+        sx = SymEx([facts], opaque=model)
+        try:
+            sx.run(fs, args=[Loc("tau")])
+            r = sx.run(fe, args=[Loc("P0")])
+            if isinstance(r, Loc):
+                ents = dict(sx.sub_entries(r))
+                if () in ents and len(ents) == 1:
+                    got = ents[()]
+                elif ents and all(len(p) == 1 and isinstance(p[0], int) for p in ents):
+                    got = ents
+                elif not ents:
+                    got = sx.read(r)
+                else:
+                    raise NotClosedForm("value returned by eval has entries %s" % sorted(ents, key=str)[:4])
+            else:
+                got = r
+        except NotClosedForm as e:
+            ck.incomplete("E11.functional-integrand", "%s: set_point/eval is not a closed form: %s" % (inst, e))
+            continue
+        want = table[name]["expect"](dim, img)
+        problems = []
+        if isinstance(want, dict) != isinstance(got, dict):
+            problems.append("eval returns a %s value, the functional of this function is %s-valued" % ("vector" if isinstance(got, dict) else "scalar", "vector" if isinstance(want, dict) else "scalar"))
+        elif isinstance(want, dict):
+            miss, extra = sorted(set(want) - set(got)), sorted(set(got) - set(want))
+            if miss or extra:
+                problems.append("components never assigned: %s, outside the extent: %s" % (miss, extra))
+            for k in sorted(set(want) & set(got)):
+                if not (Poly.of(got[k]) - want[k]).is_zero():
+                    problems.append("component %d = %s, documented (%s): %s" % (k[0], got[k], table[name]["doc"], want[k]))
+        elif not (Poly.of(got) - want).is_zero():
+            problems.append("eval = %s, documented (%s): %s" % (got, table[name]["doc"], want))
+        bad_pt = [p for nm, p in pts if p != "tau.img_point"]
+        if bad_pt:
+            problems.append("the function is evaluated at %s, not at the image point tau.img_point of the cubature point" % bad_pt[0])
+        ck.ob("E11.functional-integrand", inst, not problems, "; ".join(problems[:3]) if problems else "= %s" % table[name]["doc"], fe.file, fe.line,
+              sample={"normal_form": str(got if not isinstance(got, dict) else got.get((0,)))[:200]})
+        # configs
+        if "test" not in cfg or "trafo" not in cfg:
+            ck.incomplete("E1.functional-config", "%s: config constants not found in the driver facts" % inst)
+            continue
+        rd_psi = fields_read(fe, facts, 0, helper.lookup)
+        rd_tau = fields_read(fs, facts, 0, helper.lookup)
+        have = {k for k, v in stags.items() if v and cfg["test"][0] & v}
+        miss = sorted(x for x in rd_psi if x in stags and x not in have)
+        ck.ob("E1.functional-config", inst + "/test_config", not miss, "eval reads psi.%s but test_config = %s does not request it" % (miss, "|".join(sorted(have)) or "none") if miss else "test_config = %s, read: %s" % ("|".join(sorted(have)) or "none", sorted(rd_psi)), fe.file, fe.line)
+        tc = cfg["trafo"][0] | ttags.get("jac_det", 0) | ttags.get("dom_point", 0)
+        have = {k for k, v in ttags.items() if v and tc & v}
+        if have & {"jac_det", "jac_inv", "hess_inv"}:
+            have.add("jac_mat")
+        miss = sorted(x for x in rd_tau if x in ttags and x not in have)
+        ck.ob("E1.functional-config", inst + "/trafo_config", not miss, "set_point reads tau.%s which trafo_config (+jac_det) = %s does not provide" % (miss, sorted(have)) if miss else "trafo data read: %s" % sorted(rd_tau), fs.file, fs.line)
 
 
 # -------------------------------------------------------------------------------------------------
@@ -1126,6 +1293,223 @@ def check_symbolic(ck, facts, tier):
             continue
         ok = first == ("T", tr) and last == ("N", tl)
         ck.ob("E1.symbolic-graph", key, ok, ("pattern = %s" % pat) + ("" if ok else "; expected transpose(%s dofs) o ... o (%s dofs)" % (tr, tl)), f.file, f.line)
+
+
+def check_permutation_applied(ck, facts, tier):
+    """E7.permutation-applied: decision table over the emptiness tests of the mesh permutations a symbolic-assembler function
+    fetches from its spaces; on every path the returned graph depends on every fetched permutation that is not empty there."""
+    rule = "E7.permutation-applied"
+    seen = set()
+    for f in sorted(facts.functions, key=lambda f: f.full):
+        if f.tk == "pattern" or f.body is None or strip_targs(f.cls) != "FEAT::Assembly::SymbolicAssembler" or f.name in seen:
+            continue
+        env = norm.DefEnv(f)
+        pnames = {p["d"]: p["n"] for p in f.params}
+
+        def perm_key(x, depth=0):
+            a = env.alias(x)
+            while a is not None and a.get("k") == "Ref" and depth < 6 and "Permutation" in (env.types.get(a.get("d")) or "") and env.single_def(a.get("d")) is not None:
+                a = env.alias(env.single_def(a["d"]))
+                depth += 1
+            if a is None or a.get("k") != "MCall" or a.get("n") not in ("get_perm", "get_inv_perm"):
+                return None
+            o = a.get("obj")
+            while o is not None and norm.strip(o).get("k") == "MCall":
+                o = norm.strip(o).get("obj")
+            o = env.alias(o) if o is not None else None
+            if o is not None and o.get("k") == "Ref" and o.get("d") in pnames:
+                return "%s.%s" % (pnames[o["d"]], a["n"])
+            return None
+        keys = sorted({k for n in f.nodes() for k in [perm_key(n)] if k})
+        if not keys:
+            continue
+        seen.add(f.name)
+        key0 = "SymbolicAssembler::%s" % f.name
+
+        def formula(c, pol=True):
+            c = norm.strip(c)
+            if c is None:
+                return ("atom", ("O", "?"))
+            if c.get("k") == "Un" and c.get("op") == "!":
+                return ("not", formula(c.get("e")))
+            if c.get("k") == "Bin" and c.get("op") in ("&&", "||"):
+                return ("and" if c["op"] == "&&" else "or", formula(c["lhs"]), formula(c["rhs"]))
+            if c.get("k") == "Bool":
+                return ("const", bool(c.get("v")))
+            if c.get("k") == "MCall" and c.get("n") == "empty" and perm_key(c.get("obj")):
+                return ("atom", ("E", perm_key(c["obj"])))
+            if c.get("k") == "Bin" and c.get("op") in ("==", "!=", ">", "<"):
+                for a, b, op in ((c["lhs"], c["rhs"], c["op"]), (c["rhs"], c["lhs"], {"<": ">", ">": "<"}.get(c["op"], c["op"]))):
+                    a, b = norm.strip(a), norm.strip(b)
+                    while b is not None and b.get("k") in ("Construct", "TempObj") and len(b.get("a") or []) == 1:
+                        b = norm.strip(b["a"][0])
+                    if a is not None and a.get("k") == "MCall" and a.get("n") == "size" and perm_key(a.get("obj")) and b is not None and b.get("k") == "Int" and int(b.get("v", 1)) == 0:
+                        at = ("atom", ("E", perm_key(a["obj"])))
+                        if op == "==":
+                            return at
+                        if op in ("!=", ">"):
+                            return ("not", at)
+            if c.get("k") == "Ref" and env.single_def(c.get("d")) is not None and "bool" in (env.types.get(c.get("d")) or ""):
+                return formula(env.single_def(c["d"]))
+            return ("atom", ("O", featlib.render(c)))
+
+        def atoms_of(fm, out):
+            if fm[0] == "atom":
+                out.add(fm[1])
+            elif fm[0] in ("and", "or"):
+                atoms_of(fm[1], out); atoms_of(fm[2], out)
+            elif fm[0] == "not":
+                atoms_of(fm[1], out)
+            return out
+
+        def ev(fm, asg):
+            t = fm[0]
+            if t == "const":
+                return fm[1]
+            if t == "atom":
+                return asg[fm[1]]
+            if t == "not":
+                return not ev(fm[1], asg)
+            a, b = ev(fm[1], asg), ev(fm[2], asg)
+            return (a and b) if t == "and" else (a or b)
+        atoms = set()
+        unsupported = []
+        for n in f.nodes():
+            if n.get("k") in ("If", "Cond", "While", "Do", "For") and n.get("c") is not None:
+                atoms_of(formula(n["c"]), atoms)
+            if n.get("k") in ("Switch", "Try"):
+                unsupported.append("%s at line %s" % (n.get("k"), n.get("l")))
+        atoms = sorted(atoms)
+        if unsupported or len(atoms) > 10:
+            ck.incomplete(rule, "%s: %s" % (key0, unsupported[0] if unsupported else "more than 10 branch conditions"))
+            continue
+
+        def run_paths(asg):
+            state = {}
+            results = []
+            applied = {}      # permutation key -> line where it is handed to a call as an operand
+
+            def root(x):
+                a = env.alias(x)
+                while a is not None and a.get("k") in ("Index", "Member", "MCall", "OpCall"):
+                    a = env.alias(a.get("b") or a.get("obj") or (a.get("a") or [None])[0])
+                return a.get("d") if a is not None and a.get("k") == "Ref" and a.get("dk") in ("local", "param") else None
+
+            def T(x):
+                if not isinstance(x, dict):
+                    return frozenset()
+                k = perm_key(x)
+                if k:
+                    return frozenset([k])
+                kk = x.get("k")
+                if kk == "Ref":
+                    return state.get(x.get("d"), frozenset())
+                if kk == "MCall" and x.get("n") in ("empty", "size") and perm_key(x.get("obj")):
+                    return frozenset()
+                if kk == "Cond":
+                    return T(x.get("then") if ev(formula(x["c"]), asg) else x.get("else"))
+                if kk == "Lambda":
+                    return frozenset()
+                out = frozenset()
+                for c in featlib.children(x):
+                    out |= T(c)
+                return out
+
+            def effects(x):
+                """stores performed by the expression x"""
+                for n in walk(x):
+                    kk = n.get("k")
+                    if kk == "Assign" or (kk == "OpCall" and n.get("op") in _ASSIGN_OPS and len(n.get("a") or []) == 2):
+                        lhs, rhs = (n.get("lhs"), n.get("rhs")) if kk == "Assign" else (n["a"][0], n["a"][1])
+                        r = root(lhs)
+                        if r is not None:
+                            plain = (env.alias(lhs) or {}).get("k") == "Ref" and n.get("op", "=") == "="
+                            state[r] = T(rhs) if plain else (state.get(r, frozenset()) | T(rhs))
+                    elif featlib.is_call(n) and kk in ("Call", "MCall", "OpCall", "Construct", "TempObj"):
+                        args = n.get("a") or []
+                        allT = frozenset().union(*[T(a) for a in args]) if args else frozenset()
+                        for a in args:
+                            if perm_key(a):
+                                applied.setdefault(perm_key(a), n.get("l"))
+                        if kk == "MCall" and n.get("obj") is not None:
+                            allT |= T(n["obj"])
+                            if not n.get("cconst"):
+                                r = root(n["obj"])
+                                if r is not None:
+                                    state[r] = state.get(r, frozenset()) | allT
+                        pts = n.get("pt") or []
+                        off = 1 if (kk == "OpCall" and len(pts) == len(args) - 1) else 0
+                        for pos, a in enumerate(args):
+                            if pos < off or pos - off >= len(pts):
+                                continue
+                            ty = f.type(pts[pos - off])
+                            if ty.rstrip().endswith("&") and not ty.lstrip().startswith("const ") and not ty.rstrip().endswith("&&"):
+                                r = root(a)
+                                if r is not None:
+                                    state[r] = state.get(r, frozenset()) | allT
+
+            def walk_stmt(st):
+                if not isinstance(st, dict):
+                    return True
+                kk = st.get("k")
+                if kk == "Block":
+                    for s2 in st.get("s") or []:
+                        if not walk_stmt(s2):
+                            return False
+                    return True
+                if kk == "Decl":
+                    for v in st.get("vars") or []:
+                        if v.get("init") is not None:
+                            effects(v["init"])
+                            state[v["d"]] = T(v["init"])
+                    return True
+                if kk == "If":
+                    br = st.get("then") if ev(formula(st["c"]), asg) else st.get("else")
+                    return walk_stmt(br) if br is not None else True
+                if kk in ("For", "While", "Do", "ForRange"):
+                    for _ in range(2):
+                        if st.get("init") is not None:
+                            walk_stmt(st["init"]) if st["init"].get("k") in ("Decl", "Block") else effects(st["init"])
+                        walk_stmt(st.get("body"))
+                        if st.get("inc") is not None:
+                            effects(st["inc"])
+                    return True
+                if kk == "Return":
+                    if st.get("e") is not None:
+                        effects(st["e"])
+                        results.append((st.get("l"), T(st["e"]), dict(applied)))
+                    return False
+                if kk in ("Break", "Continue", "Null_"):
+                    return True
+                if kk == "Throw" or (featlib.is_call(st) and st.get("noreturn")):
+                    return False
+                effects(st)
+                return True
+            walk_stmt(f.body)
+            return results
+        e_atoms = [a for a in atoms if a[0] == "E"]
+        o_atoms = [a for a in atoms if a[0] == "O"]
+        for ebits in itertools.product((True, False), repeat=len(e_atoms)):
+            problems = []
+            nret = 0
+            empties = dict(zip([a[1] for a in e_atoms], ebits))
+            required = {k for k in keys if not empties.get(k, False)}
+            for obits in itertools.product((True, False), repeat=len(o_atoms)):
+                asg = dict(zip(e_atoms, ebits))
+                asg.update(dict(zip(o_atoms, obits)))
+                for line, taint, applied in run_paths(asg):
+                    nret += 1
+                    for k, l2 in sorted(applied.items()):
+                        if empties.get(k):
+                            problems.append("%s is handed to a call as a permutation (line %s) on a path on which it is empty (an empty Permutation has no position array: Graph(graph, perm, perm) / permute_indices dereference it)" % (k, l2))
+                    miss = sorted(required - taint)
+                    if miss:
+                        problems.append("the graph returned at line %s does not depend on %s although %s on this path: the pattern is composed in the numbering of the unpermuted mesh" % (
+                            line, ", ".join(miss), " and ".join("%s is %s" % (k, "empty" if v else "not empty") for k, v in sorted(empties.items())) or "no emptiness test guards it"))
+            key = "%s/%s" % (key0, ",".join("%s=%s" % (k, "empty" if empties.get(k) else ("set" if k in empties else "untested")) for k in keys))
+            if not nret:
+                continue
+            ck.ob(rule, key, not problems, "; ".join(sorted(set(problems))[:2]) if problems else "the returned graph depends on exactly the permutations that are not empty here (%s)" % (", ".join(sorted(required)) or "none"), f.file, f.line)
 
 
 def render_desc(d):
